@@ -46,6 +46,14 @@ func register(r *mc.Registry) {
 	add("iter/unbounded/p2", 2, iterUnbounded(2, false, false))
 	add("iter/unbounded/term/p0", 2, iterUnbounded(0, false, true))
 	add("iter/unbounded/term/p1", 2, iterUnbounded(1, false, true))
+	inputs2 := allInputs(2)
+	add("iter/e2e/p1", 2, iterE2E(1, false, inputs3))
+	if r.Thorough() {
+		add("iter/e2e/p2", 2, iterE2E(2, false, inputs3))
+		add("iter/e2e/p3", 3, iterE2E(3, true, inputs2))
+	} else {
+		add("iter/e2e/p2", 2, iterE2E(2, true, inputs2))
+	}
 	add("iter/two-sided", 3, iterTwoSided(inputs))
 	add("iter/sources", 2, iterSources(inputs))
 	if r.Thorough() {
@@ -65,6 +73,7 @@ func register(r *mc.Registry) {
 		"list demand = the cells whose emptiness/head/tail the consumer asked for; a memoised list evaluates each cell at most once = generator(i) of list.Generate/GenerateFrom is invoked at most once per index over the demand and a complete re-traversal (and an iterator-backed list yields the same values again)",
 		"on finite sources the direct (unwrapped) multi-stage pipeline is run for the largest demand only: the calls of every smaller demand are a prefix of its calls",
 		"Min/Max over ints: which of several equal minimal elements is returned is not observable and not demanded",
+		"end-to-end bound (Iterator pipelines): needs are propagated from the consumer to the original source, need_i = shortest prefix of stage i's reference input that fixes its answers to what stage i+1 may ask (brute force, bisection), allow_i = max(need_i, Drop's eager skip) + declared look-ahead (0; ToList/Collect prefetch 1; Zip(src,other) 1 because Zip asks its first argument first); a trailing HasNext that the reference answers with true counts as asking for that element; pulls from the original source <= allow_0 + 2; checked on inputs followed by a tail of 8 irrelevant elements (scenarios iter/e2e/*) and on the unbounded generators (a run must come back within the bound whenever allow_0 is finite)",
 	}
 	r.Extra["bounds"] = map[string]any{
 		"alphabet": []int{0, 1, 2}, "max_input_len": maxLen, "max_pipeline": map[bool]int{false: 2, true: 3}[r.Thorough()],
@@ -95,5 +104,6 @@ func register(r *mc.Registry) {
 		"element types other than int; parameters outside the listed alphabets; inputs longer than the bound",
 		"negative counts for Take/Drop",
 		"all interleavings of the two sides of Duplicate/Span/Partition (C20); here: four fixed drain orders and each side alone inside pipelines",
+		"end-to-end bound for lazy List pipelines: most list combinators look one cell ahead by construction (FlatMap, Combine, Scan, Collect), which over a searching upstream is unbounded in source elements and allowed by the statement; lists are judged per stage only",
 	}
 }
